@@ -234,6 +234,32 @@ class Ctx:
         self.log("tlc %s: rc=%d generated=%d distinct=%d %.1fs" % (name, r.rc, r.states_generated, r.distinct, r.wall))
         return r
 
+    # ---------------------------------------------------------------- tlapm
+    def tlapm(self, proof, timeout=900):
+        """Check specs/proofs/<proof>.tla with the TLA+ proof system; returns the number of proved obligations.
+
+        A failed or incomplete proof is Inconclusive: it concerns the specification, not the code."""
+        d = self.path("tlapm_" + proof)
+        os.makedirs(d, exist_ok=True)
+        for f in os.listdir(SPECS):
+            if f.endswith(".tla"):
+                shutil.copy(os.path.join(SPECS, f), d)
+        shutil.copy(os.path.join(SPECS, "proofs", proof + ".tla"), d)
+        t = time.time()
+        try:
+            p = subprocess.run(["tlapm", "--threads", str(min(NCPU, 16)), proof + ".tla"], cwd=d, stdout=subprocess.PIPE,
+                               stderr=subprocess.STDOUT, timeout=timeout)
+        except subprocess.TimeoutExpired:
+            raise Inconclusive("tlapm timeout on %s" % proof)
+        out = p.stdout.decode("utf8", "replace")
+        with open(os.path.join(d, "tlapm.out"), "w") as f:
+            f.write(out)
+        m = re.search(r"All (\d+) obligations? proved", out)
+        if p.returncode != 0 or not m:
+            raise Inconclusive("tlapm did not prove %s:\n%s" % (proof, out[-1500:]))
+        self.log("tlapm %s: %s obligations proved %.1fs" % (proof, m.group(1), time.time() - t))
+        return int(m.group(1))
+
     def tlc_must_pass(self, r, what):
         """The spec itself must be error free (a spec error is inconclusive, not a violation)."""
         if not r.ok:
